@@ -256,5 +256,7 @@ def check(run, fx, tier, floors=True):
     t05_disp(run, fx)
     t05_skip(run, fx)
     t05_base(run, fx)
+    if floors or fx.adt("context::IgnoreMarks") is not None:
+        rules_C04.t04_marks(run, fx)
     if floors or any(b.root.endswith("::glyph_positions") for b in fx.bodies):
         t05_ord(run, fx)
